@@ -226,3 +226,104 @@ def last_def_before(fn, name, lineno):
             if isinstance(t, ast.Name) and t.id == name and n.lineno < lineno and (best is None or n.lineno > best.lineno):
                 best = n
     return best
+
+
+def cond_defaults(stmts, var):
+    """[(test text, value node)] of the top-level statements `if test: var = value` (no else).  The loader normalises the
+    conditional-expression spelling `var = value if test else var` to this form, so both are covered."""
+    out = []
+    for s in stmts:
+        if isinstance(s, ast.If) and not s.orelse and len(s.body) == 1 and isinstance(s.body[0], ast.Assign) \
+                and len(s.body[0].targets) == 1 and isinstance(s.body[0].targets[0], ast.Name) and s.body[0].targets[0].id == var:
+            out.append((ast.unparse(s.test), s.body[0].value))
+    return out
+
+
+def expanded_keywords(fn, call):
+    """{keyword: value node} of a call, with `**name` expanded when `name` is a local assigned exactly once from `dict(k=v, ...)` or a
+    `{"k": v}` literal and never mutated.  Returns (mapping, unexpanded) where unexpanded lists the `**expr` texts that were left."""
+    out, rest = {}, []
+    for k in call.keywords:
+        if k.arg is not None:
+            out[k.arg] = k.value
+            continue
+        v = k.value
+        if isinstance(v, ast.Name):
+            defs = [n for n in ast.walk(fn) if isinstance(n, ast.Assign) and any(isinstance(t, ast.Name) and t.id == v.id for t in n.targets)]
+            stores = sum(1 for n in ast.walk(fn) if isinstance(n, ast.Name) and n.id == v.id and isinstance(n.ctx, (ast.Store, ast.Del)))
+            mut = any((isinstance(n, ast.Subscript) and isinstance(n.ctx, (ast.Store, ast.Del)) and isinstance(n.value, ast.Name) and n.value.id == v.id)
+                      or (isinstance(n, ast.Call) and isinstance(n.func, ast.Attribute) and isinstance(n.func.value, ast.Name) and n.func.value.id == v.id
+                          and n.func.attr in ("update", "pop", "setdefault", "clear", "popitem")) for n in ast.walk(fn))
+            if len(defs) == 1 and stores == 1 and not mut:
+                dv = defs[0].value
+                if isinstance(dv, ast.Call) and getattr(dv.func, "id", "") == "dict" and not dv.args and all(x.arg for x in dv.keywords):
+                    out.update({x.arg: x.value for x in dv.keywords})
+                    continue
+                if isinstance(dv, ast.Dict) and all(isinstance(x, ast.Constant) and isinstance(x.value, str) for x in dv.keys):
+                    out.update({x.value: y for x, y in zip(dv.keys, dv.values)})
+                    continue
+        rest.append(ast.unparse(v))
+    return out, rest
+
+
+_NEG = {ast.NotEq: ast.Eq, ast.IsNot: ast.Is, ast.NotIn: ast.In, ast.Eq: ast.NotEq, ast.Is: ast.IsNot, ast.In: ast.NotIn}
+
+
+def negation_text(text):
+    e = ast.parse(text, mode="eval").body
+    if isinstance(e, ast.UnaryOp) and isinstance(e.op, ast.Not):
+        return ast.unparse(e.operand)
+    if isinstance(e, ast.Compare) and len(e.ops) == 1 and type(e.ops[0]) in _NEG:
+        return ast.unparse(ast.Compare(e.left, [_NEG[type(e.ops[0])]()], e.comparators))
+    return ast.unparse(ast.UnaryOp(ast.Not(), e))
+
+
+def arms(node, cond):
+    """(statements run when `cond` holds, statements run otherwise) of an if statement testing cond or its negation, else None.
+    Works for both orientations (the loader gives two-armed conditionals a positive test)."""
+    t = ast.unparse(node.test)
+    if t == cond:
+        return node.body, node.orelse
+    if t == negation_text(cond):
+        return node.orelse, node.body
+    return None
+
+
+def find_ifs(stmts, cond):
+    """[(if node, arm when cond holds, arm otherwise)] among the given statements."""
+    out = []
+    for s in stmts:
+        if isinstance(s, ast.If):
+            a = arms(s, cond)
+            if a is not None:
+                out.append((s, a[0], a[1]))
+    return out
+
+
+def ifexp_arms(e, cond):
+    """(value when cond holds, value otherwise) of a conditional expression on cond or its negation, else None."""
+    if not isinstance(e, ast.IfExp):
+        return None
+    t = ast.unparse(e.test)
+    if t == cond:
+        return e.body, e.orelse
+    if t == negation_text(cond):
+        return e.orelse, e.body
+    return None
+
+
+def flag_definitions(fn):
+    """{flag: condition node} for `if C: flag = True ... else: flag = False ...` (the loader's normal form of `flag = C; if flag:`),
+    provided these are the only stores of the flag."""
+    out = {}
+    for n in ast.walk(fn):
+        if isinstance(n, ast.If) and n.orelse:
+            def consts(arm):
+                return {s.targets[0].id: s.value.value for s in arm if isinstance(s, ast.Assign) and len(s.targets) == 1 and isinstance(s.targets[0], ast.Name)
+                        and isinstance(s.value, ast.Constant) and isinstance(s.value.value, bool)}
+            a, b = consts(n.body), consts(n.orelse)
+            for nm in set(a) & set(b):
+                stores = sum(1 for x in ast.walk(fn) if isinstance(x, ast.Name) and x.id == nm and isinstance(x.ctx, (ast.Store, ast.Del)))
+                if stores == 2 and a[nm] != b[nm]:
+                    out[nm] = n.test if a[nm] else ast.UnaryOp(ast.Not(), n.test)
+    return out
